@@ -440,6 +440,23 @@ class Index:
             raise AnalysisError(f"anchor function vanished: {spec}")
         return f
 
+    def func_by_role(self, spec, pred, what):
+        """the function `spec` names - or, when a private function was renamed, the one function of the same module
+        (methods and nested functions included) that satisfies `pred` (a description of what the function DOES, given by
+        the rule).  AnalysisError when neither exists or the role is ambiguous."""
+        try:
+            return self.func(spec)
+        except AnalysisError:
+            pass
+        mod = spec.partition(":")[0]
+        m = self.modules.get(mod)
+        if m is None:
+            raise AnalysisError(f"anchor module vanished: {mod}")
+        cands = [f for f in self.all_functions if f.module is m and _safe(pred, f)]
+        if len(cands) == 1:
+            return cands[0]
+        raise AnalysisError(f"anchor function vanished: {spec} ({what}: {len(cands)} candidates by role)")
+
     def stats(self):
         return {
             "modules": len(self.modules),
@@ -457,6 +474,13 @@ def _blocks(st):
     for h in getattr(st, "handlers", []) or []:
         out.append(h.body)
     return out
+
+
+def _safe(pred, f):
+    try:
+        return bool(pred(f))
+    except Exception:
+        return False
 
 
 def const_eval(node, env=None):
